@@ -24,7 +24,7 @@ func (r *Realm) ToPropertyDescriptor(v Value) Desc {
 		throwType()
 	}
 	o := v.O
-	var d Desc                           // 2
+	var d Desc                          // 2
 	if r.HasProperty(o, "enumerable") { // 3
 		d.Enumerable, d.HasEnumerable = ToBoolean(r.Get(o, "enumerable")), true
 	}
@@ -98,19 +98,19 @@ func (r *Realm) ObjectCreate(proto Value, properties Value) Value {
 
 // ObjectDefineProperty is 15.2.3.6.
 func (r *Realm) ObjectDefineProperty(o Value, p Value, attributes Value) Value {
-	obj := needObject(o)                        // 1
-	name := r.ToString(p)                       // 2
-	desc := r.ToPropertyDescriptor(attributes)  // 3
-	r.DefineOwnProperty(obj, name, desc, true)  // 4
-	return o                                    // 5
+	obj := needObject(o)                       // 1
+	name := r.ToString(p)                      // 2
+	desc := r.ToPropertyDescriptor(attributes) // 3
+	r.DefineOwnProperty(obj, name, desc, true) // 4
+	return o                                   // 5
 }
 
 // ObjectDefineProperties is 15.2.3.7: every descriptor is converted before the
 // first property is defined.
 func (r *Realm) ObjectDefineProperties(o Value, properties Value) Value {
-	obj := needObject(o)             // 1
-	props := r.ToObject(properties)  // 2
-	var names []string               // 3
+	obj := needObject(o)            // 1
+	props := r.ToObject(properties) // 2
+	var names []string              // 3
 	for _, n := range props.OwnNames() {
 		if d := r.GetOwnProperty(props, n); d != nil && d.Enumerable {
 			names = append(names, n)
@@ -120,7 +120,7 @@ func (r *Realm) ObjectDefineProperties(o Value, properties Value) Value {
 		p string
 		d Desc
 	}
-	var descriptors []pair // 4
+	var descriptors []pair    // 4
 	for _, p := range names { // 5
 		descObj := r.Get(props, p)
 		desc := r.ToPropertyDescriptor(descObj)
@@ -134,7 +134,7 @@ func (r *Realm) ObjectDefineProperties(o Value, properties Value) Value {
 
 // ObjectSeal is 15.2.3.8.
 func (r *Realm) ObjectSeal(o Value) Value {
-	obj := needObject(o) // 1
+	obj := needObject(o)               // 1
 	for _, p := range obj.OwnNames() { // 2
 		desc := r.GetOwnProperty(obj, p)
 		if desc.Configurable {
@@ -148,7 +148,7 @@ func (r *Realm) ObjectSeal(o Value) Value {
 
 // ObjectFreeze is 15.2.3.9.
 func (r *Realm) ObjectFreeze(o Value) Value {
-	obj := needObject(o) // 1
+	obj := needObject(o)               // 1
 	for _, p := range obj.OwnNames() { // 2
 		desc := r.GetOwnProperty(obj, p)
 		if desc.IsData() {
